@@ -33,7 +33,8 @@ OPS = {"sqrt": (1, 1), "sqrt_bd": (2, 2), "sigfig": (3, 1), "cmp_int": (4, 1), "
        "cmp_dec": (6, 1), "bsearch": (7, 6), "bsearch_bd": (8, 20), "exp2": (9, 3), "log2": (10, 500), "ln": (11, 500),
        "ticklog": (12, 500), "customlog": (13, 1000), "pow": (14, 30), "powapprox": (15, 30), "bd_power": (16, 3)}
 # ops whose Coq model exists (the others are run through the implementation and the oracle only)
-MODELLED = {"sqrt", "sqrt_bd", "sigfig", "cmp_int", "cmp_bd", "cmp_dec", "bsearch", "bsearch_bd", "exp2", "bd_power"}
+MODELLED = {"sqrt", "sqrt_bd", "sigfig", "cmp_int", "cmp_bd", "cmp_dec", "bsearch", "bsearch_bd", "exp2", "bd_power",
+            "log2", "ln", "ticklog", "customlog", "pow", "powapprox"}
 POW_PRECISION = 10 ** 10          # the documented power precision 0.00000001 as a raw Dec
 MAX_EXP2 = 512 * P36
 
@@ -455,11 +456,47 @@ def gen_pow_args(r):
     return base, e
 
 
+def est_pow_iters(base, e, prec):
+    """rough number of series rounds PowApprox will make (float simulation) - only used to keep the cost of evaluating the
+    Coq model (about 2 ms per round in vm_compute) within the tier's budget; never used by the oracle"""
+    if base <= 0 or base > 3 * P18:
+        return 1
+    frac = abs(e) % P18
+    if frac == 0 or frac == P18 // 2:
+        return 10
+    x = abs(base - P18)
+    a = frac if e >= 0 else -frac
+    term, i = P18, 1
+    while term >= prec and i <= 150000:
+        c = abs(a - (i - 1) * P18)
+        term = (((term * c + P18 // 2) // P18) * x + P18 // 2) // P18      # rounded like the Dec products (ties aside)
+        term = (2 * term * P18 + i * P18) // (2 * i * P18)
+        if term == 0:
+            break
+        i += 1
+    return i
+
+
+def budget_pow(cases, n):
+    """mark the cases whose model evaluation would be too slow for the tier as oracle-only ("nomodel"): at most 3000 rounds per
+    case and 60 rounds per case on average in the quick tier (thorough: 150000 / 600)"""
+    per_case, avg = (3000, 100) if n <= 1000 else (150000, 600)
+    total = 0
+    for c in cases:
+        a = args_of(c)
+        est = est_pow_iters(a[0], a[1], a[2] if c["op"] == "powapprox" else POW_PRECISION)
+        if est > per_case or total + est > avg * n:
+            c["nomodel"] = 1
+        else:
+            total += est
+    return cases
+
+
 def gen_pow(r, n):
     out = []
     while len(out) < n:
         out.append(mk("pow", *gen_pow_args(r)))
-    return out
+    return budget_pow(out, n)
 
 
 def gen_powapprox(r, n):
@@ -470,7 +507,7 @@ def gen_powapprox(r, n):
             e = e % P18
         prec = r.choice([POW_PRECISION] * 6 + [10 ** 12, 10 ** 8, 10 ** 14, 1, 0, -5, 10 ** 17])
         out.append(mk("powapprox", b, e, prec))
-    return out
+    return budget_pow(out, n)
 
 
 def gen_bd_power(r, n):
@@ -841,7 +878,7 @@ def run_cases(cases, model_ok, out, tag):
         if o["st"] == 0:
             out.nontrivial.add(key_of(c))
     if model_ok:
-        idx = [i for i, c in enumerate(cases) if c["op"] in MODELLED]
+        idx = [i for i, c in enumerate(cases) if c["op"] in MODELLED and not c.get("nomodel")]
         bad, notes = model_compare([cases[i] for i in idx], [obs[i] for i in idx], tag)
         for n in notes:
             out.mismatches.append({"what": n, "case": None})
@@ -920,9 +957,31 @@ PERTURB = {   # op -> list of (label, function(case, obs) -> perturbed obs or No
     "cmp_dec": [("non-zero verdict replaced by 0", lambda c, o: _cmp_perturb(c, o, P18))],
     "exp2": [("result * (1 + 2e-18)", lambda c, o: _bump(o, int(o["v"][0]) * 2 // 10 ** 18 + 1)),
              ("result * (1 - 2e-18)", lambda c, o: _bump(o, -(int(o["v"][0]) * 2 // 10 ** 18) - 1))],
+    "log2": [("result + 2e-32", lambda c, o: _bump(o, 2 * 10 ** 4)), ("result - 2e-32", lambda c, o: _bump(o, -2 * 10 ** 4))],
+    "ln": [("result + 2e-32", lambda c, o: _bump(o, 2 * 10 ** 4))],
+    "ticklog": [("result * (1 + 1e-30) + 1e-27", lambda c, o: _bump(o, abs(int(o["v"][0])) // 10 ** 30 + 10 ** 9))],
+    "customlog": [("result * (1 + 1e-6)", lambda c, o: _customlog_perturb(c, o))],
+    "pow": [("result + 3e-8 (x integer power)", lambda c, o: _pow_perturb(c, o))],
+    "powapprox": [("result + 3 * precision", lambda c, o: _pow_perturb(c, o))],
     "bsearch": [("returned input moved off the solution", lambda c, o: _search_perturb(c, o))],
     "bsearch_bd": [("returned input moved off the solution", lambda c, o: _search_perturb(c, o))],
 }
+
+
+def _customlog_perturb(c, o):
+    x, b = args_of(c)
+    if abs(b - P36) < 10 ** 20 or int(o["v"][0]) == 0:
+        return None
+    return _bump(o, abs(int(o["v"][0])) // 10 ** 6 + 10 ** 12)
+
+
+def _pow_perturb(c, o):
+    a = args_of(c)
+    prec = a[2] if c["op"] == "powapprox" else POW_PRECISION
+    if a[1] < 0 or (c["op"] == "powapprox" and not (0 <= a[1] < P18 and 10 ** 8 <= prec <= 10 ** 14)):
+        return None
+    ipow = max(1, (a[0] ** (a[1] // P18)) // P18 ** (a[1] // P18) + 1)
+    return _bump(o, 3 * prec * ipow)
 
 
 def _cmp_perturb(c, o, unit):
@@ -960,7 +1019,7 @@ def selftest(n=60):
     for op in OPS:
         if op not in MODELLED:
             continue
-        cases = [c for c in GENERATORS[op](Rng(5).fork(op), 400)]
+        cases = [c for c in GENERATORS[op](Rng(5).fork(op), 400) if not c.get("nomodel")]
         obs = common.run_driver(binary, cases)
         good = [(c, o) for c, o in zip(cases, obs) if o["st"] == 0]
         step = max(1, len(good) // n)
